@@ -33,7 +33,8 @@ package spy
 
 //@ func (s *spyServer) Publish(vaaBytes []byte) (err error)
 //@   props C20
-//@   requires s != nil && s.subs != nil && (forall k in dom(s.subs) :: s.subs[k] != nil)
+//@   counts spy.Publish
+//@   requires s != nil
 //@   nonblocking
 //@   ensures [error-only-if-undecodable] err != nil ==> !vaa.accepts(vaaBytes)
 //@   modifies chan, fresh vaa.VAA.*, fresh vaa.Signature.*, fresh lib:bytes.Reader.s, fresh lib:bytes.Reader.i
@@ -66,3 +67,18 @@ package spy
 //@   loop [for]:
 //@     invariant [self] s != nil && s.subs != nil && sub != nil
 //@     invariant [only-under-own-id] forall k in dom(s.subs) :: k != id ==> s.subs[k] != sub
+
+// The hand-off from the gossip layer: every signed VAA taken from the inbound queue is published
+// once, with exactly the bytes that were gossiped (fourth goroutine of runSpy; runSpy itself
+// is only the container of that unit, its body is start-up code and is not verified).
+//@ func runSpy(cmd *cobra.Command, args []string)
+//@   props C20
+//@   assume-contract
+//@   closure [go]#4:
+//@     requires s != nil
+//@     at [v := <-signedInC]: assume-env [queue-holds-messages] v != nil
+//@     at [call s.Publish]: assert [publishes-the-gossiped-bytes] $arg0 == v.Vaa
+//@     loop [for]:
+//@       invariant [self] s != nil
+//@       iter-ensures [taken-means-published-once] v != nil ==> ghostCount("spy.Publish") == old(ghostCount("spy.Publish")) + 1
+//@   end-closure
